@@ -4,6 +4,7 @@ Model: `Model/Range.lean` (mirrors machines/range/src/*.rs), spec: `Spec/Range.l
 Integer kinds carry the exact theorems; float kinds run the same control flow over a
 parameter structure of float operations (see DESIGN.md §3) and get the structural theorem.
 -/
+import MechVerif.Gen.RangeArms
 import MechVerif.Lemmas.Range
 namespace MechVerif.Range
 open MechVerif.Num
@@ -201,3 +202,34 @@ example : rangeIncInt .i16 true qFloor (-3) 4 9 = .ok [-3, 1, 5, 9] := by decide
 example : IKind.inR .i16 (-3 + ((qFloor (9 - (-3)) 4 + 1 : Nat) : Int) * 4) = true := by decide
 
 end MechVerif.Range
+
+/-! ### the operand forms, as the fallback arms are written in the source
+
+`Gen/RangeArms.lean` is regenerated from machines/range/src on every run (`tools/extract_range_arms.py`); its theorem
+`C15_fallback_arms_ok` is a `decide` proof over the extracted arms.  The theorem here says what the extracted arms do. -/
+namespace MechVerif.RangeArms
+
+def armsOf (name : String) : List Arm :=
+  ((Gen.RangeArms.forms.find? (fun f => f.1 == name)).map (fun f => f.2.2)).getD []
+
+/-- **Whatever mix of plain values and references to variables the operands of a range are written with, the range's
+    constructor receives the operands' values in the order written** — for the two-operand forms `a..b`, `a..=b` … -/
+theorem C15_two_operand_forms_reach_the_constructor {α : Type} (name : String)
+    (hn : name = "exclusive" ∨ name = "inclusive") (a b : Opnd α) (href : a.isRef = true ∨ b.isRef = true) :
+    dispatch (armsOf name) [a, b] = some [a.value, b.value] := by
+  rcases hn with rfl | rfl <;> cases a <;> cases b <;> simp [Opnd.isRef] at href <;> rfl
+
+/-- … and for the stepped forms `a..s..b`, `a..s..=b` (start, step, end). -/
+theorem C15_stepped_forms_reach_the_constructor {α : Type} (name : String)
+    (hn : name = "exclusive_increment" ∨ name = "inclusive_increment") (a s b : Opnd α)
+    (href : a.isRef = true ∨ s.isRef = true ∨ b.isRef = true) :
+    dispatch (armsOf name) [a, s, b] = some [a.value, s.value, b.value] := by
+  rcases hn with rfl | rfl <;> cases a <;> cases s <;> cases b <;> simp [Opnd.isRef] at href <;> rfl
+
+/-! non-vacuity: an arm that exchanges step and end is refused; a shadowed arm is refused -/
+example : armOk 3 ⟨[false, true, true], [(1, false), (3, true), (2, true)]⟩ = false := by decide
+example : formOk ("x", 2, [⟨[true, false], [(1, true), (2, false)]⟩, ⟨[true, true], [(1, true), (2, true)]⟩,
+    ⟨[false, true], [(1, false), (2, true)]⟩]) = false := by decide
+example : dispatch (armsOf "inclusive_increment") [Opnd.val 0, Opnd.ref 2, Opnd.ref 10] = some [0, 2, 10] := by decide
+
+end MechVerif.RangeArms
